@@ -325,9 +325,9 @@ _TMP = []
 
 def _chunk_dir():
     """BaseDataset.__init__ creates np_chunks_path; give it a scratch directory that is removed at interpreter exit (nothing is written into it: savez/load are the in-memory store)."""
-    import tempfile, atexit, shutil
+    import tempfile, atexit, shutil, os
     if not _TMP:
-        d = tempfile.mkdtemp(prefix="symx_c18_")
+        d = tempfile.mkdtemp(prefix="symx_c18_", dir=os.environ.get("SYMX_SCRATCH") or None)  # the run's scratch directory is removed by symx.run
         _TMP.append(d)
         atexit.register(shutil.rmtree, d, True)
     return _TMP[0]
